@@ -68,6 +68,7 @@ func RunHarness(p *Program, h *Harness, cfg runCfg) (res *Result) {
 	c.Reindex = h.Item.Logical && os.Getenv("GOVC_NOREINDEX") == ""
 	x := NewExec(c, p)
 	x.h = h
+	x.noGhost = h.Item.Options["noghost"] != ""
 	if n, err := strconv.Atoi(h.Item.Options["steps"]); err == nil && n > 0 {
 		x.maxSteps = n // option steps=N: symbolic execution budget of a large item
 	}
